@@ -20,6 +20,7 @@
 #include "Variogram/VarioParam.hpp"
 
 #include <algorithm>
+#include <map>
 #include <iostream>
 
 using namespace vf;
@@ -140,7 +141,7 @@ static const std::vector<DataSet>& dataMenu(bool thorough)
   static std::vector<DataSet> menu[2];
   std::vector<DataSet>& M = menu[thorough ? 1 : 0];
   if (!M.empty()) return M;
-  for (int k = 3; k <= 6; k++)
+  for (int k = 3; k <= (thorough ? 7 : 6); k++)
   {
     std::vector<std::vector<int>> ms;
     multisets(5, k, ms);
@@ -158,10 +159,10 @@ static const std::vector<DataSet>& dataMenu(bool thorough)
   M.push_back({{1, 1, 2, 2, 4, 8, 8, 64}, "pow2ties"});
   M.push_back({{-4, -1, -0.25, 0, 0.25, 1, 4}, "symmetric"});
   M.push_back({{-100, -5, -2, -1, -1, 0}, "negskew"});
-  for (int n : {9, 33, 129})
+  for (int n : {9, 33, 129, 513})
     for (double sig : {0.5, 1., 2.})
     {
-      if (!thorough && n == 129 && sig != 1.) continue;
+      if (!thorough && (n == 513 || (n == 129 && sig != 1.))) continue;
       DataSet d;
       for (int i = 0; i < n; i++) d.z.push_back((double)exp2l((LD)sig * quantile(((LD)i + 0.5L) / n)));
       d.name = "logn" + std::to_string(n) + "s" + fmt(sig);
@@ -582,13 +583,13 @@ static void judgeHermite(Ctx& C, AnamHermite* a, const std::string& desc, const 
   if (nflat) C.outcome("has-flat-zone");
 }
 
-static const int NBPOLY[] = {2, 3, 5, 10, 20, 40};
+static const int NBPOLY[] = {2, 3, 5, 10, 20, 40, 30, 60};  // the last two in thorough only
 
 VF_PART(anam_hermite)
 {
   const auto& M = dataMenu(C.thorough());
   // variant: 0 plain, 1 with TEST entries interleaved, 2 weights (dyadic, one zero weight and one TEST weight), 3 flagBound=false (z->y->z only)
-  Space sp; sp.axis("data", (int)M.size()).axis("nbpoly", 6).axis("variant", 4);
+  Space sp; sp.axis("data", (int)M.size()).axis("nbpoly", C.thorough() ? 8 : 6).axis("variant", 4);
   for_each_case(C, sp, [&](uint64_t id, const std::vector<int>& ix) {
     const DataSet& D = M[ix[0]];
     int nb = NBPOLY[ix[1]];
@@ -822,7 +823,7 @@ VF_PART(anam_empirical)
 VF_PART(normal_score)
 {
   static const double SY[6] = {0, 1, 2, 5, 100, TEST};
-  int LMAX = 6;
+  int LMAX = C.thorough() ? 7 : 6;
   for (int len = 3; len <= LMAX; len++)
   {
     Space sp;
@@ -906,12 +907,13 @@ VF_PART(normal_score)
 
 // ================================================================================================
 // PART 7: rotations
-static const double ANG[] = {0, 30, 45, 90, -60, 180, 270, 22.5, 405, -135};
+static const double ANG[] = {0, 30, 45, 90, -60, 180, 270, 22.5, 405, -135, 1, 60, -90, 120, 359, 0.125};  // the last six in thorough only
 VF_PART(rotation)
 {
   static const double VEC[][3] = {{1, 0, 0}, {0, 1, 0}, {0, 0, 1}, {1, 1, 1}, {-2, 0.5, 3}, {0.25, -8, 1}};
   // ndim 2: 10 angles ; ndim 3: 10^3 triples
-  Space sp; sp.axis("ndim", 2).axis("a0", 10).axis("a1", 10).axis("a2", 10);
+  int NA = C.thorough() ? 16 : 10;
+  Space sp; sp.axis("ndim", 2).axis("a0", NA).axis("a1", NA).axis("a2", NA);
   for_each_case(C, sp, [&](uint64_t id, const std::vector<int>& ix) {
     int ndim = ix[0] + 2;
     if (ndim == 2 && (ix[2] || ix[3])) return;
@@ -1080,9 +1082,12 @@ static void factorCase(Ctx& C, bool maf, const std::vector<std::vector<double>>&
   }
   if (variant == 1) { cols.push_back(sel); names.push_back("sel"); locs.push_back("sel"); }
   Db* db = make_db(cols, names, locs);
-  std::string desc = std::string(what) + " nvar=" + std::to_string(nvar) + " rows=";
-  for (auto& r : all) desc += vstr(r);
-  if (variant == 1) desc += " sel=" + vstr(sel);
+  auto descf = [&]() {
+    std::string desc = std::string(what) + " nvar=" + std::to_string(nvar) + " rows=";
+    for (auto& r : all) desc += vstr(r);
+    if (variant == 1) desc += " sel=" + vstr(sel);
+    return desc;
+  };
   RefStat S = refStat(rows, nvar);
   bool deficient = S.n < 2 || !(S.lmin > 1e-12L * S.lmax) || !(S.lmax > 0);
   LD kappa = deficient ? 0 : S.lmax / S.lmin;
@@ -1099,13 +1104,13 @@ static void factorCase(Ctx& C, bool maf, const std::vector<std::vector<double>>&
     delete db; return;
   }
   if (kappa > 1e6L) { C.skip(); C.outcome("ill-conditioned(kappa>1e6):excluded"); delete db; return; }
-  if (err) { C.violation(K + ":compute-fails", desc + ": compute returns " + std::to_string(err) + " on a full-rank data set (kappa=" + fmt((double)kappa) + ")", kase); delete db; return; }
+  if (err) { C.violation(K + ":compute-fails", descf() + ": compute returns " + std::to_string(err) + " on a full-rank data set (kappa=" + fmt((double)kappa) + ")", kase); delete db; return; }
   int nc0 = db->getColumnNumber();
   int e1 = pca.dbZ2F(db);
   int nc1 = db->getColumnNumber();
   int e2 = e1 ? 1 : pca.dbF2Z(db);
   int nc2 = db->getColumnNumber();
-  if (e1 || e2 || nc1 != nc0 + nvar || nc2 != nc1 + nvar) { C.violation(K + ":transform-fails", desc + ": dbZ2F/dbF2Z return " + std::to_string(e1) + "/" + std::to_string(e2) + " or do not add nvar columns", kase); delete db; return; }
+  if (e1 || e2 || nc1 != nc0 + nvar || nc2 != nc1 + nvar) { C.violation(K + ":transform-fails", descf() + ": dbZ2F/dbF2Z return " + std::to_string(e1) + "/" + std::to_string(e2) + " or do not add nvar columns", kase); delete db; return; }
   // conditioning of the transfer matrices (for MAF the factors are scaled by the generalized eigen-problem)
   LD amp = sqrtl(kappa);
   if (maf)
@@ -1113,7 +1118,7 @@ static void factorCase(Ctx& C, bool maf, const std::vector<std::vector<double>>&
     LD n1 = 0, n2 = 0;
     for (int i = 0; i < nvar; i++) for (int j = 0; j < nvar; j++) { n1 += (LD)pca.getZ2Fs().getValue(i, j) * pca.getZ2Fs().getValue(i, j); n2 += (LD)pca.getF2Zs().getValue(i, j) * pca.getF2Zs().getValue(i, j); }
     amp = std::max(amp, sqrtl(n1 * n2));
-    if (!std::isfinite((double)amp)) { C.violation(K + ":matrices-not-finite", desc + ": Z2F/F2Z contain non finite values on a full-rank data set", kase); delete db; return; }
+    if (!std::isfinite((double)amp)) { C.violation(K + ":matrices-not-finite", descf() + ": Z2F/F2Z contain non finite values on a full-rank data set", kase); delete db; return; }
     if (amp > 1e6L) { C.skip(); C.outcome("ill-conditioned(Z2F):excluded"); delete db; return; }
   }
   // round trip on the fitting rows
@@ -1139,12 +1144,12 @@ static void factorCase(Ctx& C, bool maf, const std::vector<std::vector<double>>&
   double tolRT = 1e-10 * scale * (double)std::max<LD>(1, amp);
   C.eval();
   if (!(worstRT <= tolRT))
-    C.violation(K + ":roundtrip", desc + ": dbZ2F then dbF2Z returns the variables with max error " + fmt(worstRT) + " > " + fmt(tolRT) + " (kappa=" + fmt((double)kappa) + ")", kase);
+    C.violation(K + ":roundtrip", descf() + ": dbZ2F then dbF2Z returns the variables with max error " + fmt(worstRT) + " > " + fmt(tolRT) + " (kappa=" + fmt((double)kappa) + ")", kase);
   // factor statistics on the fitting data: zero mean, unit variance, zero cross-correlation
   {
     bool finite = true;
     for (auto& f : F) for (double v : f) finite = finite && std::isfinite(v) && !FFFF(v);
-    if (!finite) C.violation(K + ":factors-undefined", desc + ": factors of fitting samples are undefined / not finite", kase);
+    if (!finite) C.violation(K + ":factors-undefined", descf() + ": factors of fitting samples are undefined / not finite", kase);
     else
     {
       RefStat SF = refStat(F, nvar);
@@ -1152,10 +1157,10 @@ static void factorCase(Ctx& C, bool maf, const std::vector<std::vector<double>>&
       LD nfac = (LD)(SF.n - 1) / SF.n;  // variance normalised by n instead of n-1 is accepted as well
       for (int v = 0; v < nvar; v++)
       {
-        if (fabsl(SF.mean[v]) > tolS) { C.violation(K + ":factor-mean", desc + ": factor " + std::to_string(v + 1) + " has mean " + fmt((double)SF.mean[v]) + " on the fitting data", kase); break; }
-        if (fabsl(SF.cov[v][v] - 1) > tolS && fabsl(SF.cov[v][v] * nfac - 1) > tolS) { C.violation(K + ":factor-variance", desc + ": factor " + std::to_string(v + 1) + " has variance " + fmt((double)SF.cov[v][v]) + " on the fitting data", kase); break; }
+        if (fabsl(SF.mean[v]) > tolS) { C.violation(K + ":factor-mean", descf() + ": factor " + std::to_string(v + 1) + " has mean " + fmt((double)SF.mean[v]) + " on the fitting data", kase); break; }
+        if (fabsl(SF.cov[v][v] - 1) > tolS && fabsl(SF.cov[v][v] * nfac - 1) > tolS) { C.violation(K + ":factor-variance", descf() + ": factor " + std::to_string(v + 1) + " has variance " + fmt((double)SF.cov[v][v]) + " on the fitting data", kase); break; }
         for (int w = 0; w < v; w++)
-          if (fabsl(SF.cov[v][w]) > tolS) { C.violation(K + ":factor-correlation", desc + ": factors " + std::to_string(w + 1) + "," + std::to_string(v + 1) + " have covariance " + fmt((double)SF.cov[v][w]) + " on the fitting data", kase); v = nvar; break; }
+          if (fabsl(SF.cov[v][w]) > tolS) { C.violation(K + ":factor-correlation", descf() + ": factors " + std::to_string(w + 1) + "," + std::to_string(v + 1) + " have covariance " + fmt((double)SF.cov[v][w]) + " on the fitting data", kase); v = nvar; break; }
       }
     }
   }
@@ -1169,7 +1174,7 @@ static void factorCase(Ctx& C, bool maf, const std::vector<std::vector<double>>&
   }
   C.nontrivial(sig);
   C.outcome(std::string("judged:") + (kappa < 10 ? "kappa<10" : kappa < 1e3 ? "kappa<1e3" : "kappa<1e6") + " rt" + relbin(worstRT / scale));
-  if (sig % 2003 == 0) C.sample("{\"what\":" + jstr(desc) + ",\"kappa\":" + fmt((double)kappa) + ",\"roundtrip_err\":" + fmt(worstRT) + "}");
+  if (sig % 2003 == 0) C.sample("{\"what\":" + jstr(descf()) + ",\"kappa\":" + fmt((double)kappa) + ",\"roundtrip_err\":" + fmt(worstRT) + "}");
   delete db;
 }
 
@@ -1186,9 +1191,10 @@ VF_PART(pca)
     };
     for (int k = 3; k <= 5; k++) add(1, {0, 1, 2, 5, 100}, k);
     add(2, {0, 1, 2, 5}, 3); add(2, {0, 1, 2, 5}, 4);
-    if (C.thorough()) add(2, {0, 1, 2, 5}, 5);
-    add(3, {0, 1, 3}, 4);
-    if (C.thorough()) add(3, {0, 1, 3}, 5);
+    add(2, {0, 1, 2, 5}, 5);
+    if (C.thorough()) { add(1, {0, 1, 2, 5, 100}, 6); add(1, {0, 1, 2, 5, 100}, 7); add(2, {0, 1, 2, 5}, 6); add(2, {0, 1, 2, 5}, 7); }
+    add(3, {0, 1, 3}, 4); add(3, {0, 1, 3}, 5);
+    if (C.thorough()) { add(3, {0, 1, 3}, 6); add(3, {0, 1, 3}, 7); }
   }
   int fi = 0;
   for (auto& f : fams)
@@ -1212,7 +1218,8 @@ VF_PART(maf)
   fams.push_back({2, 4, rowMenu({0, 1, 2}, 2)});
   fams.push_back({2, 5, rowMenu({0, 1, 2}, 2)});
   fams.push_back({3, 5, rowMenu({0, 1}, 3)});
-  if (C.thorough()) fams.push_back({3, 6, rowMenu({0, 1}, 3)});
+  fams.push_back({3, 6, rowMenu({0, 1}, 3)});
+  if (C.thorough()) { fams.push_back({2, 6, rowMenu({0, 1, 2}, 2)}); fams.push_back({1, 6, rowMenu({0, 1, 2, 5, 100}, 1)}); }
   int fi = 0;
   for (auto& f : fams)
   {
@@ -1341,6 +1348,426 @@ VF_PART(anam_db)
     C.outcome(std::string(api ? "bylocator" : "byname") + (variant ? "+undefined+selection" : ""));
     delete a; delete db;
   });
+}
+
+// ================================================================================================
+// PART 11/12: column-layout axis for the Db-level wrappers.
+// The wrappers address their input variables by locator rank (Z locator number ivar) and write their outputs in new
+// columns; nothing in their contract depends on where the variables sit in the table. Layouts:
+//   0 side by side            x1 v1 v2 v3                     (UID = column index, consecutive)
+//   1 interleaved             x1 f0 v1 f1 v2 f2 v3            (foreign columns between the variables: UIDs not consecutive)
+//   2 reverse order           x1 v3 v2 v1                     (locator order opposite to column / UID order)
+//   3 after deleted columns   x1 [j0] v1 [j1] v2 f2 v3        (j0, j1 deleted: UIDs not consecutive AND UID != column index)
+// Foreign columns carry values near -5000 (far from any variable) and must be bitwise unchanged afterwards.
+static const char* LAYNAME[4] = {"side-by-side", "interleaved", "reverse", "after-deleted"};
+struct LayDb
+{
+  Db* db = nullptr;
+  std::vector<std::string> vnames;                       // in locator order
+  std::map<std::string, std::vector<double>> before;     // every pre-existing column by name
+};
+static LayDb buildLayout(int layout, const std::vector<std::vector<double>>& vars, const std::vector<double>* sel)
+{
+  LayDb L;
+  int nvar = (int)vars.size(), nech = (int)vars[0].size();
+  std::vector<std::pair<std::string, std::vector<double>>> cols;
+  auto foreign = [&](int k) { std::vector<double> f; for (int i = 0; i < nech; i++) f.push_back(-5000. - 100. * k - i); return f; };
+  { std::vector<double> x; for (int i = 0; i < nech; i++) x.push_back(i); cols.push_back({"x1", x}); }
+  std::vector<std::string> todelete;
+  for (int k = 0; k < nvar; k++) L.vnames.push_back("v" + std::to_string(k + 1));
+  if (layout == 0) for (int k = 0; k < nvar; k++) cols.push_back({L.vnames[k], vars[k]});
+  if (layout == 1)
+  {
+    cols.push_back({"f0", foreign(0)});
+    for (int k = 0; k < nvar; k++) { cols.push_back({L.vnames[k], vars[k]}); if (k + 1 < nvar) cols.push_back({"f" + std::to_string(k + 1), foreign(k + 1)}); }
+  }
+  if (layout == 2) for (int k = nvar - 1; k >= 0; k--) cols.push_back({L.vnames[k], vars[k]});
+  if (layout == 3)
+  {
+    for (int k = 0; k < nvar; k++)
+    {
+      if (k < 2) { cols.push_back({"j" + std::to_string(k), foreign(7 + k)}); todelete.push_back("j" + std::to_string(k)); }
+      else cols.push_back({"f2", foreign(2)});
+      cols.push_back({L.vnames[k], vars[k]});
+    }
+  }
+  if (sel) cols.push_back({"sel", *sel});
+  VectorDouble tab; VectorString names;
+  for (auto& c : cols) { names.push_back(c.first); for (double v : c.second) tab.push_back(v); }
+  L.db = Db::createFromSamples(nech, ELoadBy::COLUMN, tab, names, VectorString(), false);
+  for (auto& n : todelete) L.db->deleteColumn(n);
+  L.db->setLocator("x1", ELoc::X, 0);
+  for (int k = 0; k < nvar; k++) L.db->setLocator(L.vnames[k], ELoc::Z, k);
+  if (sel) L.db->setLocator("sel", ELoc::SEL, 0);
+  for (int ic = 0; ic < L.db->getColumnNumber(); ic++)
+  {
+    std::vector<double> v;
+    for (int i = 0; i < nech; i++) v.push_back(L.db->getValueByColIdx(i, ic));
+    L.before[L.db->getNameByColIdx(ic)] = v;
+  }
+  return L;
+}
+static bool sameBits(double a, double b) { return memcmp(&a, &b, 8) == 0; }
+// every column that existed before the call still exists with the same values
+static bool unchanged(const LayDb& L)
+{
+  for (auto& kv : L.before)
+  {
+    int ic = L.db->getColIdx(kv.first);
+    if (ic < 0) return false;
+    for (size_t i = 0; i < kv.second.size(); i++) if (!sameBits(L.db->getValueByColIdx((int)i, ic), kv.second[i])) return false;
+  }
+  return true;
+}
+// layout facts actually realised (for the histogram): are the UIDs of the Z variables consecutive in locator order? UID == column index?
+static std::string layoutFacts(Db* db, int nvar)
+{
+  bool consec = true, uidIsCol = true;
+  for (int k = 0; k < nvar; k++)
+  {
+    int uid = db->getUIDByLocator(ELoc::Z, k);
+    int col = db->getColIdxByLocator(ELoc::Z, k);
+    if (k > 0 && uid != db->getUIDByLocator(ELoc::Z, k - 1) + 1) consec = false;
+    if (uid != col) uidIsCol = false;
+  }
+  return std::string(consec ? "uid-consecutive" : "uid-NOT-consecutive") + (uidIsCol ? ",uid=col" : ",uid!=col");
+}
+
+VF_PART(anam_db_layout)
+{
+  const auto& M = dataMenu(C.thorough());
+  // kind 0 AnamHermite(5), 1 AnamEmpirical (normal score table) ; variant 0 plain, 1 TEST entries + selection
+  Space sp; sp.axis("data", (int)M.size()).axis("nvar", 3).axis("layout", 4).axis("kind", 2).axis("variant", 2);
+  for_each_case(C, sp, [&](uint64_t id, const std::vector<int>& ix) {
+    const DataSet& D = M[ix[0]];
+    if (D.z.size() > (C.thorough() ? 40u : 12u)) { C.skip(); C.outcome("large-data-skipped-here"); return; }
+    if (isConstant(D.z)) { C.skip(); C.outcome("constant-data-excluded"); return; }
+    int nvar = ix[1] + 1, layout = ix[2], kind = ix[3], variant = ix[4];
+    std::string kase = std::to_string(id);
+    std::string lay = LAYNAME[layout];
+    int n0 = (int)D.z.size();
+    // variable k = the data rotated by k positions (same distribution, same validity interval, different column content)
+    std::vector<std::vector<double>> vars(nvar);
+    std::vector<double> sel;
+    for (int k = 0; k < nvar; k++)
+    {
+      for (int i = 0; i < n0; i++) vars[k].push_back(D.z[(i + k) % n0]);
+      if (variant == 1)
+      {
+        vars[k].insert(vars[k].begin() + 1 + (k % 2), TEST);       // an undefined value at a variable-dependent place
+        vars[k].insert(vars[k].begin(), -777. - k);                // masked wild samples
+        vars[k].push_back(12345. + k);
+      }
+    }
+    int nech = (int)vars[0].size();
+    if (variant == 1) { sel.assign(nech, 1.); sel[0] = 0; sel[nech - 1] = 0; }
+    auto active = [&](int i) { return variant == 0 || sel[i] != 0; };
+    bool distinct = true;
+    for (int k = 1; k < nvar; k++) for (int j = 0; j < k; j++) if (vars[k] == vars[j]) distinct = false;
+
+    AnamContinuous* a = kind == 0 ? (AnamContinuous*)AnamHermite::create(5) : (AnamContinuous*)new AnamEmpirical(100, TEST, false, true);
+    if (a->fitFromArray(VectorDouble(D.z.begin(), D.z.end()))) { C.skip(); C.outcome("fit-fails(judged in other parts)"); delete a; return; }
+    std::string desc = std::string(kind ? "AnamEmpirical" : "AnamHermite(5)") + " fitted on " + vstr(D.z) + ", Db layout=" + lay + " nvar=" + std::to_string(nvar) + (variant ? " with TEST values and a selection" : "");
+    // Gaussian companions of the variables (scalar transform, judged elsewhere)
+    std::vector<std::vector<double>> gau(nvar);
+    for (int k = 0; k < nvar; k++)
+      for (int i = 0; i < nech; i++) gau[k].push_back(FFFF(vars[k][i]) ? TEST : active(i) ? a->rawToTransformValue(vars[k][i]) : 3.25 + k);
+
+    int nmask0 = 0, nmaskT = 0, nmaskO = 0;
+    // judge nout new columns starting at column nc0: column nc0+q must hold f(input of variable kq[q]) on active defined samples
+    auto judge = [&](const std::string& fn, LayDb& L, int err, int nc0, const std::vector<int>& kq, const std::vector<std::vector<double>>& in, bool forward) -> bool {
+      C.eval();
+      std::string K = "anam-db:" + fn + ":" + lay;
+      if (err || L.db->getColumnNumber() != nc0 + (int)kq.size())
+      {
+        C.violation(K + ":fails", desc + ": " + fn + " returns " + std::to_string(err) + " / adds " + std::to_string(L.db->getColumnNumber() - nc0) + " columns instead of " + std::to_string(kq.size()), kase);
+        return false;
+      }
+      bool ok = true;
+      for (size_t q = 0; q < kq.size() && ok; q++)
+        for (int i = 0; i < nech && ok; i++)
+        {
+          double got = L.db->getValueByColIdx(i, nc0 + (int)q);
+          double vin = in[kq[q]][i];
+          if (!active(i)) { if (got == 0) nmask0++; else if (FFFF(got)) nmaskT++; else nmaskO++; continue; }
+          if (FFFF(vin))
+          {
+            if (!FFFF(got)) { ok = false; C.violation(K + ":undefined-not-kept", desc + ": " + fn + " output " + std::to_string(q + 1) + " sample " + std::to_string(i) + " is " + fmt(got) + " although the input of variable " + std::to_string(kq[q] + 1) + " is undefined", kase); }
+            continue;
+          }
+          double want = forward ? a->rawToTransformValue(vin) : a->transformToRawValue(vin);
+          if (!sameBits(got, want))
+          {
+            ok = false;
+            // which column was used instead (diagnosis only)
+            std::string who = "";
+            for (auto& kv : L.before)
+            {
+              double v = kv.second[i];
+              if (!FFFF(v) && sameBits(got, forward ? a->rawToTransformValue(v) : a->transformToRawValue(v))) who = " (= transform of column '" + kv.first + "')";
+            }
+            C.violation(K + ":wrong-values", desc + ": " + fn + " output " + std::to_string(q + 1) + " sample " + std::to_string(i) + " = " + fmt(got) + " but the transform of variable " + std::to_string(kq[q] + 1) + " (" + fmt(vin) + ") is " + fmt(want) + who, kase);
+          }
+        }
+      if (!unchanged(L)) { ok = false; C.violation(K + ":input-columns-changed", desc + ": " + fn + " modified or removed a pre-existing column", kase); }
+      return ok;
+    };
+    std::vector<int> allk; for (int k = 0; k < nvar; k++) allk.push_back(k);
+    const std::vector<double>* psel = variant ? &sel : nullptr;
+
+    // (1) forward, by locator, all variables at once
+    {
+      LayDb L = buildLayout(layout, vars, psel);
+      C.outcome("layout:" + lay + ":" + layoutFacts(L.db, nvar) + ":nvar=" + std::to_string(nvar));
+      int nc0 = L.db->getColumnNumber();
+      int e = a->rawToGaussianByLocator(L.db);
+      bool ok = judge("rawToGaussianByLocator", L, e, nc0, allk, vars, true);
+      // (1b) chained inverse on the Gaussian variables just created (they hold the Z locator now)
+      if (ok)
+      {
+        LayDb L2 = L;  // same db, remember the forward outputs too
+        for (int k = 0; k < nvar; k++)
+        {
+          std::vector<double> v; for (int i = 0; i < nech; i++) v.push_back(L.db->getValueByColIdx(i, nc0 + k));
+          L2.before[L.db->getNameByColIdx(nc0 + k)] = v;
+        }
+        int nc1 = L.db->getColumnNumber();
+        int e2 = a->gaussianToRawByLocator(L.db);
+        std::vector<std::vector<double>> yin(nvar);
+        for (int k = 0; k < nvar; k++) for (int i = 0; i < nech; i++) yin[k].push_back(L.db->getValueByColIdx(i, nc0 + k));
+        judge("gaussianToRawByLocator(chained)", L2, e2, nc1, allk, yin, false);
+      }
+      delete L.db;
+    }
+    // (2) backward, by locator, on Gaussian variables placed in the layout ; round trip to the raw values
+    {
+      LayDb L = buildLayout(layout, gau, psel);
+      int nc0 = L.db->getColumnNumber();
+      int e = a->gaussianToRawByLocator(L.db);
+      bool ok = judge("gaussianToRawByLocator", L, e, nc0, allk, gau, false);
+      if (ok)
+      {
+        // identity z -> y -> z inside the validity interval, to the accuracy of the method (see anam_hermite / anam_empirical)
+        double zlo = std::max(a->getAzmin(), a->getPzmin()), zhi = std::min(a->getAzmax(), a->getPzmax());
+        double zscale = std::max({std::fabs(zlo), std::fabs(zhi), std::fabs(zhi - zlo)});
+        double dzmax = std::fabs(a->transformToRawValue(1.) - a->transformToRawValue(-1.)) / 100000.;
+        HermiteSlope slope;
+        if (kind == 0) for (double p : dynamic_cast<AnamHermite*>(a)->getPsiHns()) slope.psi.push_back((LD)p);
+        for (int k = 0; k < nvar; k++)
+          for (int i = 0; i < nech; i++)
+          {
+            double z = vars[k][i];
+            if (!active(i) || FFFF(z)) continue;
+            double back = L.db->getValueByColIdx(i, nc0 + k);
+            if (!(z >= zlo && z <= zhi)) { C.skip(); C.outcome("roundtrip:datum-outside-validity-interval(excluded)"); continue; }
+            double tol = 0;
+            if (kind == 0)
+            {
+              double y = gau[k][i];
+              double Ls = (double)std::max({slope((LD)y - DYMAX), slope((LD)y), slope((LD)y + DYMAX)});
+              tol = std::max(dzmax, 2 * Ls * DYMAX) * (1 + 1e-9) + 1e-12 * zscale;
+            }
+            C.eval();
+            C.outcome(std::string("roundtrip:") + (kind ? "empirical:" : "hermite:") + relbin(std::fabs(back - z) / std::max(zscale, 1e-300)));
+            if (!(std::fabs(back - z) <= tol))
+              C.violation("anam-db:roundtrip:" + lay, desc + ": variable " + std::to_string(k + 1) + " sample " + std::to_string(i) + " z=" + fmt(z) + " -> y=" + fmt(gau[k][i]) + " -> " + fmt(back) + " through the Db wrappers (tolerance " + fmt(tol) + ")", kase);
+          }
+      }
+      delete L.db;
+    }
+    // (3) by name, one variable at a time (each call designates the variable, output appended)
+    {
+      LayDb L = buildLayout(layout, vars, psel);
+      LayDb G = buildLayout(layout, gau, psel);
+      for (int k = 0; k < nvar; k++)
+      {
+        int nc0 = L.db->getColumnNumber();
+        int e = a->rawToGaussian(L.db, L.vnames[k]);
+        bool ok = judge("rawToGaussian", L, e, nc0, {k}, vars, true);
+        int nc1 = G.db->getColumnNumber();
+        int e2 = a->gaussianToRaw(G.db, G.vnames[k]);
+        ok = judge("gaussianToRaw", G, e2, nc1, {k}, gau, false) && ok;
+        if (!ok) break;
+      }
+      delete L.db; delete G.db;
+    }
+    // (4) normal score by name: scores of the active samples = VH::normalScore of the active values of THAT variable
+    if (kind == 1)
+    {
+      LayDb L = buildLayout(layout, vars, psel);
+      for (int k = 0; k < nvar; k++)
+      {
+        int nc0 = L.db->getColumnNumber();
+        int e = a->normalScore(L.db, L.vnames[k]);
+        C.eval();
+        std::string K = "anam-db:normalScore:" + lay;
+        if (e || L.db->getColumnNumber() != nc0 + 1) { C.violation(K + ":fails", desc + ": normalScore(" + L.vnames[k] + ") returns " + std::to_string(e), kase); break; }
+        VectorDouble act; std::vector<int> where;
+        for (int i = 0; i < nech; i++) if (active(i)) { act.push_back(vars[k][i]); where.push_back(i); }
+        VectorDouble ref = VH::normalScore(act);
+        bool same = ref.size() == act.size();
+        for (size_t q = 0; same && q < where.size(); q++)
+        {
+          double v = L.db->getValueByColIdx(where[q], nc0);
+          same = (FFFF(ref[q]) && FFFF(v)) || sameBits(ref[q], v);
+        }
+        if (!same) { C.violation(K + ":wrong-values", desc + ": normalScore(" + L.vnames[k] + ") differs from VH::normalScore of the active values of that variable", kase); break; }
+        if (!unchanged(L)) { C.violation(K + ":input-columns-changed", desc + ": normalScore modified a pre-existing column", kase); break; }
+      }
+      delete L.db;
+    }
+    // (5) factors H_k of a (single) Gaussian variable; with several Z variables the calculator refuses (documented)
+    if (kind == 0)
+    {
+      LayDb G = buildLayout(layout, gau, psel);
+      VectorInt ifacs = {1, 3, 2};
+      int nc0 = G.db->getColumnNumber();
+      int e = a->rawToFactorByRanks(G.db, ifacs);
+      C.eval();
+      std::string K = std::string("anam-db:rawToFactorByRanks:") + lay;
+      if (nvar > 1)
+      {
+        C.skip(); C.outcome(e ? "factors:several-variables-refused(documented)" : "factors:several-variables-accepted(not judged)");
+        if (!unchanged(G)) C.violation(K + ":input-columns-changed", desc + ": a refused rawToFactorByRanks modified a pre-existing column", kase);
+      }
+      else if (e || G.db->getColumnNumber() != nc0 + 3) C.violation(K + ":fails", desc + ": rawToFactorByRanks returns " + std::to_string(e), kase);
+      else
+      {
+        bool ok = true; int nundef0 = 0;
+        for (int i = 0; i < nech && ok; i++)
+        {
+          if (!active(i)) continue;
+          if (FFFF(gau[0][i])) { nundef0++; continue; }   // what an undefined input gives is not defined by C18 (the code leaves the initial 0): counted
+          VectorDouble want = hermitePolynomials(gau[0][i], 1., ifacs);
+          for (int q = 0; q < 3; q++) if (!sameBits(G.db->getValueByColIdx(i, nc0 + q), want[q])) ok = false;
+          if (!ok) C.violation(K + ":wrong-values", desc + ": factors of sample " + std::to_string(i) + " are not the Hermite polynomials of the Z variable (" + fmt(gau[0][i]) + ")", kase);
+        }
+        if (nundef0) C.outcome("factors:undefined-input-not-judged", nundef0);
+        if (!unchanged(G)) C.violation(K + ":input-columns-changed", desc + ": rawToFactorByRanks modified a pre-existing column", kase);
+        C.outcome("factors:judged");
+      }
+      delete G.db;
+    }
+    if (nmask0) C.outcome("masked-sample-output:0(initial value, not judged)", nmask0);
+    if (nmaskT) C.outcome("masked-sample-output:TEST(not judged)", nmaskT);
+    if (nmaskO) C.outcome("masked-sample-output:other(not judged)", nmaskO);
+    if (!distinct) C.outcome("variables-identical(wrong column not observable)");
+    if (distinct || nvar == 1) C.nontrivial(id);
+    C.outcome(std::string(kind ? "empirical:" : "hermite:") + lay + (variant ? "+undefined+selection" : ""));
+    if (id % 2503 == 0) C.sample("{\"data\":" + jstr(D.name) + ",\"nvar\":" + std::to_string(nvar) + ",\"layout\":" + jstr(lay) + ",\"kind\":" + std::to_string(kind) + ",\"variant\":" + std::to_string(variant) + "}");
+    delete a;
+  });
+}
+
+// PCA / MAF wrappers under the same layouts. Oracle: layout invariance, bitwise — the same variables in the same locator
+// order and the same samples must give the same transfer matrices, the same factors and the same back-transformed
+// variables as the side-by-side table (whose values are judged in parts pca / maf), and dbF2Z must read the factor
+// that holds locator rank k wherever it sits.
+VF_PART(factor_db_layout)
+{
+  struct Fam { int nvar; std::vector<std::vector<double>> rows; std::vector<std::vector<int>> ms; };
+  static std::vector<Fam> fams;
+  if (fams.empty())
+  {
+    auto add = [&](int nvar, std::vector<double> alpha, int size) { Fam f; f.nvar = nvar; f.rows = rowMenu(alpha, nvar); multisets((int)f.rows.size(), size, f.ms); fams.push_back(f); };
+    add(1, {0, 1, 2, 5, 100}, 4);
+    add(2, {0, 1, 2, 5}, 3);
+    if (C.thorough()) add(2, {0, 1, 2, 5}, 4);
+    add(3, {0, 1}, 4);
+    if (C.thorough()) add(3, {0, 1, 3}, 4);
+  }
+  int fi = 0;
+  for (auto& f : fams)
+  {
+    Space sp; sp.axis("multiset", (int)f.ms.size()).axis("layout", 3).axis("variant", 2).axis("maf", 2);
+    int famId = fi++;
+    for_each_case_fam(C, famId, sp, [&](uint64_t id, const std::vector<int>& ix) {
+      int nvar = f.nvar, layout = ix[1] + 1, variant = ix[2];
+      bool maf = ix[3];
+      std::string lay = LAYNAME[layout], kase = std::to_string(famId) + "/" + std::to_string(id);
+      std::string K = std::string(maf ? "maf-db:" : "pca-db:");
+      std::vector<std::vector<double>> rows;
+      for (int r : f.ms[ix[0]]) rows.push_back(f.rows[r]);
+      // a deterministic re-ordering so that samples are not sorted (matters for MAF only)
+      std::rotate(rows.begin(), rows.begin() + 1, rows.end());
+      RefStat S = refStat(rows, nvar);
+      if (S.n < 2 || !(S.lmin > 1e-12L * S.lmax) || !(S.lmax > 0)) { C.skip(); C.outcome("rank-deficient-excluded"); return; }
+      std::vector<std::vector<double>> all = rows;
+      std::vector<double> sel(rows.size(), 1.);
+      if (variant == 1)
+      {
+        std::vector<double> het(nvar, 7.); het[0] = TEST;
+        std::vector<double> wild(nvar, 1000.); wild[nvar - 1] = -3000.;
+        all.insert(all.begin() + 1, het); sel.insert(sel.begin() + 1, 1.);
+        all.push_back(wild); sel.push_back(0.);
+      }
+      int nech = (int)all.size();
+      std::vector<std::vector<double>> vars(nvar);
+      for (int k = 0; k < nvar; k++) for (int i = 0; i < nech; i++) vars[k].push_back(all[i][k]);
+      const std::vector<double>* psel = variant ? &sel : nullptr;
+      std::string desc = std::string(maf ? "MAF" : "PCA") + " nvar=" + std::to_string(nvar) + " layout=" + lay + " rows=";
+      for (auto& r : all) desc += vstr(r);
+      auto compute = [&](PCA& p, Db* db) { return maf ? p.maf_compute_interval(db, 0.5, 1.5) : p.pca_compute(db); };
+      // reference: side by side
+      LayDb R = buildLayout(0, vars, psel);
+      PCA p0;
+      int e0 = compute(p0, R.db);
+      int r0 = R.db->getColumnNumber();
+      if (e0 || p0.dbZ2F(R.db) || p0.dbF2Z(R.db)) { C.skip(); C.outcome("reference-fails(judged in pca/maf)"); delete R.db; return; }
+      std::vector<std::vector<double>> F0(nvar), Z0(nvar);
+      for (int k = 0; k < nvar; k++) for (int i = 0; i < nech; i++) { F0[k].push_back(R.db->getValueByColIdx(i, r0 + k)); Z0[k].push_back(R.db->getValueByColIdx(i, r0 + nvar + k)); }
+      bool finite = true;
+      for (int k = 0; k < nvar; k++) for (int i = 0; i < nech; i++) if (std::isnan(F0[k][i]) || std::isnan(Z0[k][i])) finite = false;
+      if (!finite) { C.skip(); C.outcome("reference-not-finite-excluded"); delete R.db; return; }
+      delete R.db;
+      // layout under test
+      LayDb L = buildLayout(layout, vars, psel);
+      C.outcome("layout:" + lay + ":" + layoutFacts(L.db, nvar) + ":nvar=" + std::to_string(nvar));
+      PCA p1;
+      int e1 = compute(p1, L.db);
+      C.eval();
+      bool ok = true;
+      if (e1) { ok = false; C.violation(K + "compute:" + lay + ":fails", desc + ": compute returns " + std::to_string(e1) + " although it succeeds on the side-by-side table", kase); }
+      if (ok)
+        for (int i = 0; i < nvar && ok; i++)
+          for (int j = 0; j < nvar && ok; j++)
+            if (!sameBits(p0.getZ2Fs().getValue(i, j), p1.getZ2Fs().getValue(i, j)) || !sameBits(p0.getF2Zs().getValue(i, j), p1.getF2Zs().getValue(i, j)) || !sameBits(p0.getMean(i), p1.getMean(i)))
+            { ok = false; C.violation(K + "compute:" + lay + ":differs", desc + ": means / transfer matrices differ from those of the side-by-side table (same variables, same locator order)", kase); }
+      if (ok)
+      {
+        int nc0 = L.db->getColumnNumber();
+        int e = p1.dbZ2F(L.db);
+        C.eval();
+        if (e || L.db->getColumnNumber() != nc0 + nvar) { ok = false; C.violation(K + "dbZ2F:" + lay + ":fails", desc + ": dbZ2F returns " + std::to_string(e), kase); }
+        for (int k = 0; k < nvar && ok; k++)
+          for (int i = 0; i < nech && ok; i++)
+            if (!sameBits(L.db->getValueByColIdx(i, nc0 + k), F0[k][i]))
+            { ok = false; C.violation(K + "dbZ2F:" + lay + ":wrong-values", desc + ": factor " + std::to_string(k + 1) + " sample " + std::to_string(i) + " = " + fmt(L.db->getValueByColIdx(i, nc0 + k)) + ", side-by-side table gives " + fmt(F0[k][i]), kase); }
+        if (ok && !unchanged(L)) { ok = false; C.violation(K + "dbZ2F:" + lay + ":input-columns-changed", desc + ": dbZ2F modified a pre-existing column", kase); }
+      }
+      delete L.db;
+      if (ok)
+      {
+        // factors placed in the layout (masked / heterotopic rows keep TEST factors: they stay non-isotopic)
+        LayDb G = buildLayout(layout, F0, psel);
+        int nc0 = G.db->getColumnNumber();
+        int e = p0.dbF2Z(G.db);
+        C.eval();
+        if (e || G.db->getColumnNumber() != nc0 + nvar) { ok = false; C.violation(K + "dbF2Z:" + lay + ":fails", desc + ": dbF2Z returns " + std::to_string(e), kase); }
+        for (int k = 0; k < nvar && ok; k++)
+          for (int i = 0; i < nech && ok; i++)
+          {
+            double got = G.db->getValueByColIdx(i, nc0 + k);
+            if (!sameBits(got, Z0[k][i]))
+            { ok = false; C.violation(K + "dbF2Z:" + lay + ":wrong-values", desc + ": back-transformed variable " + std::to_string(k + 1) + " sample " + std::to_string(i) + " = " + fmt(got) + ", side-by-side table gives " + fmt(Z0[k][i]) + " (original " + fmt(vars[k][i]) + ")", kase); }
+          }
+        if (ok && !unchanged(G)) { ok = false; C.violation(K + "dbF2Z:" + lay + ":input-columns-changed", desc + ": dbF2Z modified a pre-existing column", kase); }
+        delete G.db;
+      }
+      C.nontrivial(Hash().i(famId).u(id).h);
+      C.outcome(std::string(maf ? "maf:" : "pca:") + lay + (variant ? "+heterotopic+masked" : ""));
+    });
+  }
 }
 
 int main(int argc, char** argv)
